@@ -246,6 +246,7 @@ class core_frexp(Contract):
                                        and round_ok_sc(ctx, False, False, False, 0, 0, True))}
         ex = e_of(xr)
         eabs = ite(ex < 0, -ex, ex)
-        cn = norm_c(x._ctx, xr._s, xr._exp, xr._c) if x._ctx is not None else xr._c
+        # the repaired frexp no longer normalises x under its own context: the mantissa keeps the significand of x
+        cn = xr._c
         return {'ValueError': not (round_ok_sc(ctx, False, False, xr._s, 1 - bl(cn), cn, True)
                                    and round_ok_sc(ctx, False, False, ex < 0, 0, eabs, True))}
